@@ -1,0 +1,156 @@
+//go:build verif
+
+package hclsyntax
+
+import (
+	"fmt"
+	"hash/fnv"
+	"math/rand/v2"
+	"runtime"
+	"sync"
+	"sync/atomic"
+
+	"github.com/hashicorp/hcl/v2"
+	"github.com/zclconf/go-cty/cty"
+)
+
+// Trace recorder for AnonSymbolExpr (verification harness in /verif, property
+// C17). Compiled only with -tags verif. It observes and never changes what
+// the instrumented methods do:
+//
+//   - verifAnonEvent is called INSIDE the critical section of
+//     AnonSymbolExpr.Value / setValue / clearValue (valuesLock is held), so
+//     for one AnonSymbolExpr the order of the recorded events is the order of
+//     its critical sections (readers that overlap under RLock commute).
+//   - verifAnonYield is called BEFORE valuesLock is taken and randomly yields
+//     the processor, to shake the interleavings the scheduler produces.
+
+const (
+	verifAnonSet   = 0
+	verifAnonGet   = 1
+	verifAnonClear = 2
+)
+
+// VerifAnonEvent is one critical section of one AnonSymbolExpr.
+type VerifAnonEvent struct {
+	Seq       int    // position in the recorder's log
+	Goroutine int64  // id of the goroutine that executed it (runtime.Stack)
+	Sym       int    // identity of the AnonSymbolExpr, 1-based, by pointer
+	Ctx       int    // identity of the *hcl.EvalContext key, 1-based, by pointer
+	Parent    int    // identity of ctx.Parent(), 0 when there is none
+	Op        int    // 0 setValue, 1 Value, 2 clearValue
+	Digest    uint64 // setValue: digest (>= 1) of the value stored; Value: digest of the value the map lookup found, 0 when the key was absent; clearValue: 0
+}
+
+var verifAnon struct {
+	enabled atomic.Bool
+	yield   atomic.Int32 // probability of a yield before a lock, in 1/1000
+	mu      sync.Mutex
+	events  []VerifAnonEvent
+	ctxIDs  map[*hcl.EvalContext]int // also keeps the contexts alive, so that no pointer is reused while tracing
+	symIDs  map[*AnonSymbolExpr]int
+}
+
+// VerifAnonTrace switches recording on or off. Switching it on discards the
+// events and identities recorded before.
+func VerifAnonTrace(enable bool) {
+	verifAnon.mu.Lock()
+	defer verifAnon.mu.Unlock()
+	if enable {
+		verifAnon.events = nil
+		verifAnon.ctxIDs = make(map[*hcl.EvalContext]int)
+		verifAnon.symIDs = make(map[*AnonSymbolExpr]int)
+	}
+	verifAnon.enabled.Store(enable)
+}
+
+// VerifAnonEvents returns a copy of the events recorded since tracing was
+// last switched on.
+func VerifAnonEvents() []VerifAnonEvent {
+	verifAnon.mu.Lock()
+	defer verifAnon.mu.Unlock()
+	return append([]VerifAnonEvent(nil), verifAnon.events...)
+}
+
+// VerifAnonSetYield sets the probability (in 1/1000) with which the methods
+// of AnonSymbolExpr call runtime.Gosched() before taking valuesLock.
+func VerifAnonSetYield(perMille int) { verifAnon.yield.Store(int32(perMille)) }
+
+// VerifAnonCtxID returns the identity the current trace uses for ctx (0 when
+// the context has not occurred in the trace).
+func VerifAnonCtxID(ctx *hcl.EvalContext) int {
+	verifAnon.mu.Lock()
+	defer verifAnon.mu.Unlock()
+	return verifAnon.ctxIDs[ctx]
+}
+
+// VerifGoroutineID returns the runtime's id of the calling goroutine.
+func VerifGoroutineID() int64 {
+	var buf [64]byte
+	n := runtime.Stack(buf[:], false)
+	// "goroutine 123 [running]:..."
+	var id int64
+	for _, c := range buf[len("goroutine "):n] {
+		if c < '0' || c > '9' {
+			break
+		}
+		id = id*10 + int64(c-'0')
+	}
+	return id
+}
+
+// VerifAnonDigest is the digest the recorder uses for values: FNV-1a of the
+// value's Go syntax, reduced to 1..2^62.
+func VerifAnonDigest(val cty.Value) uint64 {
+	if val == cty.NilVal {
+		return 0
+	}
+	h := fnv.New64a()
+	fmt.Fprintf(h, "%#v", val)
+	return h.Sum64()&(1<<62-1) + 1
+}
+
+func verifAnonYield() {
+	if p := verifAnon.yield.Load(); p > 0 && rand.IntN(1000) < int(p) {
+		runtime.Gosched()
+	}
+}
+
+func verifAnonCtxIDLocked(ctx *hcl.EvalContext) int {
+	if ctx == nil {
+		return 0
+	}
+	id, ok := verifAnon.ctxIDs[ctx]
+	if !ok {
+		id = len(verifAnon.ctxIDs) + 1
+		verifAnon.ctxIDs[ctx] = id
+	}
+	return id
+}
+
+func (e *AnonSymbolExpr) verifAnonEvent(kind int, ctx *hcl.EvalContext, val cty.Value) {
+	if !verifAnon.enabled.Load() {
+		return
+	}
+	ev := VerifAnonEvent{Goroutine: VerifGoroutineID(), Op: kind}
+	if kind != verifAnonClear {
+		ev.Digest = VerifAnonDigest(val)
+	}
+	verifAnon.mu.Lock()
+	defer verifAnon.mu.Unlock()
+	if !verifAnon.enabled.Load() {
+		return
+	}
+	sym, ok := verifAnon.symIDs[e]
+	if !ok {
+		sym = len(verifAnon.symIDs) + 1
+		verifAnon.symIDs[e] = sym
+	}
+	ev.Sym = sym
+	ev.Ctx = verifAnonCtxIDLocked(ctx)
+	if ctx != nil {
+		ev.Parent = verifAnonCtxIDLocked(ctx.Parent())
+	}
+	ev.Seq = len(verifAnon.events)
+	verifAnon.events = append(verifAnon.events, ev)
+}
